@@ -13,17 +13,17 @@ SPEC = dict(
          "(accuracy 1e-3..1e-10, ForceProjection, UseInfinityNorm, LocalOnly, DontThrow or caught exception, overshoot, projection "
          "limit); linear stream (k mod 4 = 1) = qdot==u mobilizers with ConstantCoordinate / linear CoordinateCoupler / ConstantSpeed, "
          "random weights, optional lock, correction compared with the weighted minimum-norm solution; degenerate stream (k mod 16 = 7) "
-         "= zero-length quaternion or Slider+Rod with vanishing Jacobian.  Records: projQ/projU (entry norm and worst index recomputed "
+         "= zero-length quaternion, Slider+Rod with vanishing Jacobian, or a quadratic SpeedCoupler without real root.  Records: projQ/projU (entry norm and worst index recomputed "
          "by the model; early exits predicted field by field by the skeleton; Newton-path results accepted by the contract), normq, "
          "packQ/packU, minnorm; distinct = distinct input records",
     partial="Newton convergence itself is numerical: the skeleton takes the per-iteration constraint errors as an oracle (Jacobian, QTZ "
             "pseudo-inverse, N/N+ and realizePosition are not modelled); on the Newton path the public API shows only ProjectResults, so "
             "the tie is the kind-K contract acceptsQ/acceptsU (the full skeleton is replayed on per-iteration traces only when the hook of "
-            "notes/C09_hook.patch is present in the library; tried once by interposition: all 2181 traced calls predicted exactly); the "
+            "notes/C09_hook.patch is present in the library; tried by interposition without touching /repo: all 3908 traced calls of seeds 1,2 predicted exactly); the "
             "min-norm theorems are over exact fields and full row rank, the driver's Gaussian elimination is checked through its residual "
             "(min_norm_of_multiplier), rank-deficient cases are skipped; minimum-norm clause checked for N = identity mobilizers only",
     assumptions=["sqrt enters as a parameter; normalize_unit assumes sqrt(n)*sqrt(n) = n and n != 0",
-                 "the order on the scalar field is total (IEEE NaN is outside the theorems: see finding projectQ.nonfinite.success_sound)",
+                 "the order on the scalar field is total (IEEE NaN is outside the theorems: see findings {project,projectQ,projectU}.nonfinite.success_sound)",
                  "quaternion normalisation is assumed by the code not to change the holonomic errors; checked on the final state by the "
                  "harness (false for constraints on raw quaternion components: finding *.rawQuatCoord.perr_le_acc)",
                  "weights are set through State::updUWeights/updQErrWeights/updUErrWeights; prescribed values are what System::prescribeQ "
